@@ -142,25 +142,13 @@ func (m *model) discoverLoop() error {
 	if idxVal == nil {
 		return fmt.Errorf("scheduler loop: select index is not consulted")
 	}
-	entryOf := func(k int) *ssa.BasicBlock {
-		for _, r := range *idxVal.Referrers() {
-			b, ok := r.(*ssa.BinOp)
-			if !ok || b.Op != token.EQL || !ssax.IsConstInt(b.Y, int64(k)) {
-				continue
-			}
-			for _, rr := range *b.Referrers() {
-				if i, ok := rr.(*ssa.If); ok {
-					return i.Block().Succs[0]
-				}
-			}
-		}
-		return nil
-	}
 	for k, st := range m.sel.States {
-		a := &arm{idx: k, kind: "other", state: st, entry: entryOf(k)}
+		a := &arm{idx: k, kind: "other", state: st}
+		a.test, a.entry = selectArmEdge(m.sel, k)
 		if a.entry == nil {
 			return fmt.Errorf("scheduler loop: entry block of select arm %d not found", k)
 		}
+		a.member = edgeRegion(a.test, 0)
 		el := chanElemOr(st.Chan.Type())
 		if st.Dir == types.RecvOnly {
 			for _, r := range *m.sel.Referrers() {
@@ -373,35 +361,78 @@ func (m *model) resolve(v ssa.Value) ssa.Value {
 }
 
 func (m *model) discoverCounters() error {
-	// Emit call sites in loop functions
+	// State values built in the loop goroutine: the argument of Emit, or any State under construction
+	var cands []ssa.Value
 	var emits []ssa.CallInstruction
 	for _, fn := range m.loopFuncs() {
 		ssax.Instrs(fn, func(in ssa.Instruction) {
-			c, ok := in.(ssa.CallInstruction)
-			if !ok || !c.Common().IsInvoke() || c.Common().Method.Name() != "Emit" {
-				return
-			}
-			if types.Identical(c.Common().Value.Type(), m.EmitterIface) {
+			if c, ok := in.(ssa.CallInstruction); ok && c.Common().IsInvoke() && c.Common().Method.Name() == "Emit" && types.Identical(c.Common().Value.Type(), m.EmitterIface) {
 				emits = append(emits, c)
+				cands = append(cands, c.Common().Args[0])
 			}
 		})
 	}
-	if len(emits) != 1 {
-		return fmt.Errorf("scheduler loop: expected exactly one Emitter.Emit call in the loop goroutine, found %d", len(emits))
+	if len(emits) == 1 {
+		m.emitCall = emits[0]
 	}
-	m.emitCall = emits[0]
-	vals, err := m.stateFields(m.emitCall.Common().Args[0])
-	if err != nil {
-		return err
+	for _, fn := range m.loopFuncs() {
+		ssax.Instrs(fn, func(in ssa.Instruction) {
+			if a, ok := in.(*ssa.Alloc); ok && types.Identical(ssax.Deref(a.Type()), m.State) {
+				for _, r := range *a.Referrers() {
+					if u, ok := r.(*ssa.UnOp); ok && u.Op == token.MUL {
+						cands = append(cands, u)
+					}
+				}
+			}
+		})
 	}
-	m.cPending = m.headerPhi(vals["Pending"])
-	m.cWaiting = m.headerPhi(vals["Waiting"])
-	// ongoing: the header phi mentioned in IdleWorkers' expression
-	if idle := vals["IdleWorkers"]; idle != nil {
-		m.cOngoing = m.findHeaderPhiIn(idle, 0)
+	for _, cand := range cands {
+		vals, err := m.stateFields(cand)
+		if err != nil {
+			continue
+		}
+		p, w := m.headerPhi(vals["Pending"]), m.headerPhi(vals["Waiting"])
+		var o *ssa.Phi
+		if idle := vals["IdleWorkers"]; idle != nil {
+			o = m.findHeaderPhiIn(idle, 0)
+		}
+		if p != nil && w != nil && o != nil {
+			m.cPending, m.cWaiting, m.cOngoing = p, w, o
+			m.stateVal = cand
+			return nil
+		}
 	}
-	if m.cPending == nil || m.cWaiting == nil || m.cOngoing == nil {
-		return fmt.Errorf("State passed to Emit: Pending/Waiting/IdleWorkers are not fed by loop-carried counters of the scheduler loop")
+	// structural fallback: pending is the int counter tested against 0 on the way out, ongoing the one
+	// compared with the concurrency limit, waiting the remaining loop-carried int.
+	var ints []*ssa.Phi
+	for _, in := range m.header.Instrs {
+		if p, ok := in.(*ssa.Phi); ok && isInt(p.Type()) && types.Identical(p.Type(), types.Typ[types.Int]) {
+			ints = append(ints, p)
+		}
+	}
+	for _, b := range m.fnLoop.Blocks {
+		i := ssax.IfOf(b)
+		if i == nil || !m.loopBlocks[b] {
+			continue
+		}
+		a := m.mkAtom(i.Cond, true)
+		for _, p := range ints {
+			vs := m.versions(p)
+			if ok, _ := eqInt(a, 0, func(v ssa.Value) bool { return vs[v] }); ok && m.cPending == nil {
+				m.cPending = p
+			}
+			if (a.op == "<" || a.op == "<=") && (vs[a.av] && m.isField(a.bv, m.fConc) || vs[a.bv] && m.isField(a.av, m.fConc)) {
+				m.cOngoing = p
+			}
+		}
+	}
+	for _, p := range ints {
+		if p != m.cPending && p != m.cOngoing && len(ints) == 3 {
+			m.cWaiting = p
+		}
+	}
+	if m.cPending == nil || m.cWaiting == nil || m.cOngoing == nil || m.cPending == m.cOngoing {
+		return fmt.Errorf("scheduler loop: the loop-carried counters (pending, waiting, executing) could not be identified from the state report or from the loop's tests")
 	}
 	return nil
 }
@@ -503,7 +534,7 @@ func (m *model) armOf(in ssa.Instruction) string {
 	}
 	b := in.Block()
 	for _, a := range m.arms {
-		if a.entry.Dominates(b) {
+		if a.inside(b) {
 			return a.name
 		}
 	}
@@ -522,5 +553,45 @@ func (m *model) armByName(name string) *arm {
 	return nil
 }
 
-// inArm: region predicate of an arm (blocks dominated by the arm entry).
-func (a *arm) inside(b *ssa.BasicBlock) bool { return a.entry.Dominates(b) }
+// inside: region predicate of an arm: blocks that can only be reached through the edge taken when
+// this select state was chosen (an empty case body shares its first block with other arms and is empty).
+func (a *arm) inside(b *ssa.BasicBlock) bool { return a.member[b] }
+
+// edgeRegion: the blocks dominated by the edge from -> from.Succs[idx].
+func edgeRegion(from *ssa.BasicBlock, idx int) map[*ssa.BasicBlock]bool {
+	out := map[*ssa.BasicBlock]bool{}
+	if from == nil || idx >= len(from.Succs) || from.Succs[0] == from.Succs[1] {
+		return out
+	}
+	for _, b := range from.Parent().Blocks {
+		if ssax.EdgeDominates(from, idx, b) {
+			out[b] = true
+		}
+	}
+	return out
+}
+
+// selectArmEdge: the block testing `index == k` and its true successor.
+func selectArmEdge(sel *ssa.Select, k int) (*ssa.BasicBlock, *ssa.BasicBlock) {
+	var idx ssa.Value
+	for _, r := range *sel.Referrers() {
+		if e, ok := r.(*ssa.Extract); ok && e.Index == 0 {
+			idx = e
+		}
+	}
+	if idx == nil {
+		return nil, nil
+	}
+	for _, r := range *idx.Referrers() {
+		b, ok := r.(*ssa.BinOp)
+		if !ok || b.Op != token.EQL || !ssax.IsConstInt(b.Y, int64(k)) {
+			continue
+		}
+		for _, rr := range *b.Referrers() {
+			if i, ok := rr.(*ssa.If); ok {
+				return i.Block(), i.Block().Succs[0]
+			}
+		}
+	}
+	return nil, nil
+}
